@@ -76,6 +76,14 @@ struct Pred
 	template <typename P>
 	bool operator() (int a, const P & p) const { p.alive("predicate argument"); return g_sink->onPredicate(mask, script, true, a, p.id, p.val); }
 };
+// a predicate that takes the event's payload BY VALUE (it must get a copy: the queued event stays intact)
+struct PredByValue
+{
+	int mask, script;
+	PredByValue(int m, int s) : mask(m), script(s) {}
+	template <typename P>
+	bool operator() (int a, P p) const { p.alive("predicate argument"); const bool r = g_sink->onPredicate(mask, script, true, a, p.id, p.val); P stolen(std::move(p)); (void)stolen; return r; }
+};
 struct PredNoArgs
 {
 	int mask, script;
@@ -462,8 +470,8 @@ struct Interp : Sink
 				FaultArm arm;
 				if(op.k == O_PROCESS) got = real(o).process();
 				else if(op.k == O_PROCESS_ONE) got = real(o).processOne();
-				else if(op.k == O_PROCESS_IF) got = (op.c & 1) ? real(o).processIf(PredNoArgs(op.a, op.b)) : real(o).processIf(Pred(op.a, op.b));
-				else got = (op.c & 1) ? real(o).processUntil(PredNoArgs(op.a, op.b)) : real(o).processUntil(Pred(op.a, op.b));
+				else if(op.k == O_PROCESS_IF) got = (op.c & 1) ? real(o).processIf(PredNoArgs(op.a, op.b)) : (op.c & 2) ? processIfByValue(o, op, false) : real(o).processIf(Pred(op.a, op.b));
+				else got = (op.c & 1) ? real(o).processUntil(PredNoArgs(op.a, op.b)) : (op.c & 2) ? processIfByValue(o, op, true) : real(o).processUntil(Pred(op.a, op.b));
 			}
 			catch(...) {
 				abortProcsTo(depth - 1);
@@ -685,6 +693,17 @@ struct Interp : Sink
 		}
 		default: break;
 		}
+	}
+
+	template <typename Q = PayT>
+	typename std::enable_if<std::is_copy_constructible<Q>::value, bool>::type processIfByValue(int o, const Op & op, bool until)
+	{
+		return until ? real(o).processUntil(PredByValue(op.a, op.b)) : real(o).processIf(PredByValue(op.a, op.b));
+	}
+	template <typename Q = PayT>
+	typename std::enable_if<!std::is_copy_constructible<Q>::value, bool>::type processIfByValue(int o, const Op & op, bool until)
+	{
+		return until ? real(o).processUntil(Pred(op.a, op.b)) : real(o).processIf(Pred(op.a, op.b));
 	}
 
 	template <typename Q = PayT>
@@ -956,8 +975,8 @@ struct Gen
 		if(r < 34) return Op(O_ENQ, nextEv++, (int)rng.below(3), 0, dOf(o, k));
 		if(r < 46) return Op(O_PROCESS, 0, 0, 0, dOf(o, 0));
 		if(r < 56) return Op(O_PROCESS_ONE, 0, 0, 0, dOf(o, 0));
-		if(r < 66) return Op(O_PROCESS_IF, (int)rng.below(256), (scripts && depth < 2 && rng.chance(1, 4)) ? makeScript(o, depth + 1) : 0, rng.chance(1, 6) ? 1 : 0, dOf(o, 0));
-		if(r < 73) return Op(O_PROCESS_UNTIL, (int)rng.below(256), (scripts && depth < 2 && rng.chance(1, 5)) ? makeScript(o, depth + 1) : 0, rng.chance(1, 6) ? 1 : 0, dOf(o, 0));
+		if(r < 66) { const int mask = (int)rng.below(256); const int sc = (scripts && depth < 2 && rng.chance(1, 4)) ? makeScript(o, depth + 1) : 0; const uint32_t pk = rng.below(6); return Op(O_PROCESS_IF, mask, sc, pk == 0 ? 1 : pk <= 2 ? 2 : 0, dOf(o, 0)); }
+		if(r < 73) { const int mask = (int)rng.below(256); const int sc = (scripts && depth < 2 && rng.chance(1, 5)) ? makeScript(o, depth + 1) : 0; const uint32_t pk = rng.below(6); return Op(O_PROCESS_UNTIL, mask, sc, pk == 0 ? 1 : pk <= 2 ? 2 : 0, dOf(o, 0)); }
 		if(r < 78) return Op(O_PEEK, 0, 0, 0, dOf(o, 0));
 		if(r < 85) return Op(O_TAKE, 0, 0, (int)rng.below(2), dOf(o, 0));
 		if(r < 89) return Op(O_CLEAR, 0, 0, 0, dOf(o, 0));
@@ -1111,7 +1130,7 @@ static void describeOp(const Op & op, std::ostringstream & o)
 	o << (op.k >= 1 && op.k < O_KINDS ? kNames[op.k] : "?");
 	const int obj = (op.d >> 2) & 3, key = op.d & 3;
 	if(op.k == O_ENQ) o << "(form" << op.b << ",key" << key << ")";
-	else if(op.k == O_PROCESS_IF || op.k == O_PROCESS_UNTIL) { o << "(mask" << op.a; if(op.b) o << ",script" << op.b - 1; if(op.c) o << ",noargs"; o << ")"; }
+	else if(op.k == O_PROCESS_IF || op.k == O_PROCESS_UNTIL) { o << "(mask" << op.a; if(op.b) o << ",script" << op.b - 1; if(op.c & 1) o << ",noargs"; else if(op.c & 2) o << ",by-value predicate"; o << ")"; }
 	else if(op.k == O_TAKE && op.c) o << "(+dispatch)";
 	else if(op.k >= O_APPEND_L && op.k <= O_INSERT_L) { o << "(cb" << op.a << ",key" << key; if(op.k == O_INSERT_L) o << ",before h" << op.b; if(op.c) o << ",script" << op.c - 1; o << ")"; }
 	else if(op.k == O_REMOVE_L) { if(op.b == SELF) o << "(self)"; else o << "(h" << op.b << ")"; }
